@@ -144,6 +144,7 @@ func genPlain(r *rand.Rand) layout {
 		l.align = 0x200000
 	}
 	nseg := 1 + r.Intn(4)
+	xonly := r.Intn(6) == 0
 	vaddr := uint64(0)
 	if l.typ == elf.ET_EXEC {
 		vaddr = 0x400000
@@ -162,6 +163,9 @@ func genPlain(r *rand.Rand) layout {
 		flags := uint32(elf.PF_R)
 		if i == l.xseg {
 			flags |= uint32(elf.PF_X)
+			if xonly {
+				flags = uint32(elf.PF_X) // execute-only text (lld --execute-only): no read permission
+			}
 		} else if i == nseg-1 {
 			flags |= uint32(elf.PF_W)
 			msz += uint64(r.Intn(2 * pg))
@@ -180,7 +184,7 @@ func genPlain(r *rand.Rand) layout {
 			off = noff
 		}
 	}
-	l.desc = fmt.Sprintf("%v align=%#x sep=%v nseg=%d xseg=%d", l.typ, l.align, sep, nseg, l.xseg)
+	l.desc = fmt.Sprintf("%v align=%#x sep=%v nseg=%d xseg=%d xonly=%v", l.typ, l.align, sep, nseg, l.xseg, xonly)
 	return l
 }
 
